@@ -1,8 +1,291 @@
 /-
-  C01 — TOUGH2 data file write/read round trip (property theorems).
-  (under construction: the theorems are added as the proofs in Proofs/T2Data*.lean land)
+  C01 — TOUGH2 data file write/read round trip preserves the whole model.
+
+  Property theorems about the executable model of t2data.py's readers and writers
+  (`Model/T2Sections.lean`: 23 section readers/writers over three loop combinators; `Model/T2Data.lean`:
+  the object, `_sections`, `read()`, `write()`, MESH file, extra-precision file), over the shared record
+  layer `Model/Fixed.lean` (C02) and the tables regenerated from /repo into `Gen/Sections.lean`.
+  Proofs: `Proofs/T2DataRecords, T2DataCombinators, T2DataSections, T2DataNames, T2DataGrid, T2DataFile,
+  T2DataTables`.  The model is tied to the code by the correspondence facets of harness/props/c01.py
+  (written bytes and read-back dumps compared on every run).
+
+  Reading guide (clause of the property → theorem):
+    "equals what was written, to the digits its field carries"   record_roundtrip, value_line_roundtrip
+        (`canonV f v` = the value read from the columns `write_values_to_string` gave `v`; what that is
+         — exact for names and integers, the rounded decimal for reals — is C02's `roundtrip_*`)
+    lists "on both sides of each 4- and 8-per-line boundary"      chunked_roundtrip (+ _nonNone, _take) for every n,
+                                                                 every length; all_chunk_records for the tables
+    record lists closed by a blank line (ROCKS ELEME CONNE …)     untilBlank_roundtrip
+    "output time"                                                 section_roundtrip_TIMES
+    "block", "connection"                                         section_roundtrip_ELEME, section_roundtrip_CONNE
+                                                                 (main and extra-precision tables)
+    "initial condition"                                           section_roundtrip_INCON
+    "history request"                                             section_roundtrip_FOFT_GOFT, section_roundtrip_COFT
+    "block-name (A3,I2) fix/unfix on the way in and out"          block_name_cycle
+    "the same sections in the same order"                         sections_preserved, insert_keeps_others,
+                                                                 delete_keeps_order, update_sections_canonical
+    "from then on every further cycle reproduces them"            write_read_fixpoint
+    "both simulator flavours"                                     flavour_param_spec
+    tie to the tables and dispatch of /repo                       all_records_wf, dispatch_as_modelled
+  Not proved as theorems (modelled and checked by the correspondence and the oracle only): the round trips of
+  ROCKS, PARAM, GENER, RPCAP, LINEQ/SOLVR/MULTI, SELEC, DIFFU, INDOM, SHORT, MESHM at section level, the
+  composition of all section round trips into `read (write d) = canon d` for whole objects, the binary
+  MESHA/MESHB pair, and idempotence of `canonV` on reals (C02's domain).
 -/
-import PyTough.Model.T2Data
-open Model Model.T2
+import PyTough.Proofs.T2DataTables
+open Py Model Model.T2 Proofs Proofs.T2 Proofs.Incon
+open Gen.Sections (Rec)
 namespace Props.C01
+
+/-! ### records -/
+
+/-- **One written record read back.**  For any record kind, the values written (one per leading field) come
+    back each as the reading of its own columns; the remaining fields of the record read as `None`; padding
+    after the newline (`padstring`) changes nothing. -/
+theorem record_roundtrip (r : Rec) (vals : List Val) (hvalid : ∀ f ∈ r.fs, ValidTyp f.typ)
+    (hnum : ∀ f ∈ r.fs.drop vals.length, NumericTyp f.typ) {l : Str} (h : writeValuesLine r vals = .ok l)
+    (pad : Str) (hpad : ∀ c ∈ pad, isStrWs c = true) :
+    readValues .default r (l ++ pad) =
+      .ok ((vals.zip r.fs).map (fun vf => canonV vf.2 vf.1) ++ (r.fs.drop vals.length).map (fun _ => Val.none)) :=
+  readValues_written r vals hvalid hnum h pad hpad
+
+/-- **A dictionary line read back** (`write_value_line` / `read_value_line`: PARAM, MULTI, LINEQ, SOLVR, TIMES,
+    rock and block attribute lines, MESHMAKER sub-sections): entries present come back under their own names,
+    absent entries (`None` / blank) leave the reader's dictionary untouched. -/
+theorem value_line_roundtrip {r : Rec} (hr : RecWF r) (d d0 : Dict) {l : Str} (h : writeValueLine r d = .ok l)
+    (pad : Str) (hpad : ∀ c ∈ pad, isStrWs c = true) :
+    readValueLine .default r d0 (l ++ pad) = .ok (absorb r.names (canonVals r (lineVals r d)) d0) :=
+  valueLine_roundtrip hr d d0 h pad hpad
+
+/-- every record kind of both tables of the current /repo satisfies `RecWF` (decided on the generated tables) -/
+theorem all_records_wf :
+    (∀ e ∈ Gen.Sections.mainTable, RecWF e.2) ∧ (∀ e ∈ Gen.Sections.xpTable, RecWF e.2) :=
+  ⟨fun e he => recWFb_spec (Proofs.T2.all_records_wf.1 e he), fun e he => recWFb_spec (Proofs.T2.all_records_wf.2 e he)⟩
+
+/-! ### the three loop shapes -/
+
+/-- **chunked_roundtrip.**  A list of *any* length written in `ceil(len / n)` lines of `n` values (the last
+    line padded with `None`) reads back over the same number of lines as the values written followed only by
+    the padding — for every `n > 0`: both sides of every 4- and 8-per-line boundary at once. -/
+theorem chunked_roundtrip {r : Rec} {n : Nat} {f0 : FieldSpec} (hr : ChunkRec r n f0) (hn : 0 < n) (xs : List Val)
+    {lines : List Str} (hw : writeChunks r n xs xs.length ((xs.length + n - 1) / n) = .ok lines) (rest : List Str) :
+    readChunks .default r ((xs.length + n - 1) / n) (lines ++ rest) =
+      .ok (xs.map (canonV f0) ++ List.replicate (((xs.length + n - 1) / n) * n - xs.length) Val.none, rest) :=
+  Proofs.T2.chunked_roundtrip hr hn xs hw rest
+
+/-- readers that keep the values present (time steps, TIMES, generator tables, RADII) get the list back -/
+theorem chunked_roundtrip_nonNone {r : Rec} {n : Nat} {f0 : FieldSpec} (hr : ChunkRec r n f0) (hn : 0 < n)
+    (xs : List Val) (hx : ∀ x ∈ xs, canonV f0 x ≠ Val.none) {lines : List Str}
+    (hw : writeChunks r n xs xs.length ((xs.length + n - 1) / n) = .ok lines) (rest : List Str) :
+    ∃ vs, readChunks .default r ((xs.length + n - 1) / n) (lines ++ rest) = .ok (vs, rest) ∧
+      nonNone vs = xs.map (canonV f0) :=
+  Proofs.T2.chunked_roundtrip_nonNone hr hn xs hx hw rest
+
+/-- readers that slice by the count (LAYER, XYZ increments, MINC volumes) get the list back -/
+theorem chunked_roundtrip_take {r : Rec} {n : Nat} {f0 : FieldSpec} (hr : ChunkRec r n f0) (hn : 0 < n)
+    (xs : List Val) {lines : List Str}
+    (hw : writeChunks r n xs xs.length ((xs.length + n - 1) / n) = .ok lines) (rest : List Str) :
+    ∃ vs, readChunks .default r ((xs.length + n - 1) / n) (lines ++ rest) = .ok (vs, rest) ∧
+      vs.take xs.length = xs.map (canonV f0) :=
+  Proofs.T2.chunked_roundtrip_take hr hn xs hw rest
+
+/-- every chunked record kind of the current tables (time steps, default incons, TIMES, generator tables, SELEC,
+    RADII, LAYER, XYZ, MINC volumes, INCON/INDOM variables, DIFFU; and the extra-precision generator tables) is a
+    uniform numeric record of 4 or 8 fields: the three theorems above apply to all of them -/
+theorem all_chunk_records :
+    (∀ e ∈ mainChunks, ∃ r, mainTabs.get e.1 = .ok r ∧ ChunkRec r e.2.1 e.2.2 ∧ 0 < e.2.1) ∧
+    (∀ e ∈ xpChunks, ∃ r, xpTabs.get e.1 = .ok r ∧ ChunkRec r e.2.1 e.2.2 ∧ 0 < e.2.1) :=
+  ⟨fun e he => chunkOK_spec (main_chunks_ok e he), fun e he => chunkOK_spec (xp_chunks_ok e he)⟩
+
+/-- **untilBlank_roundtrip.**  Records written one after the other and closed by a blank line (or a stop line
+    such as `+++`): if no record starts with a blank line and each record reader recovers its record from its
+    own lines, the loop returns exactly the written records, in order, and consumes the terminator. -/
+theorem untilBlank_roundtrip {α β} (pad : Str → Str) (stop : Str → Bool) (rd : Str → List Str → Except Exc (β × Nat))
+    (enc : α → List Str) (canon : α → β) (as : List α) (hrt : ∀ a ∈ as, RecordRT pad stop rd enc canon a)
+    (t : Str) (ht : isBlank (pad t) = true ∨ stop (pad t) = true) (rest : List Str) :
+    untilBlank pad stop rd ((as.map enc).flatten ++ t :: rest) = .ok (as.map canon, rest) :=
+  Proofs.T2.untilBlank_roundtrip pad stop rd enc canon as hrt t ht rest
+
+/-! ### block names -/
+
+/-- **Block names, (A3,I2).**  For every five-character name, writing (`unfix_blockname`) then reading
+    (`fix_blockname`) never fails, gives a five-character name, and is idempotent: the second cycle returns the
+    same name and writes the same text — so the second file's names equal the first's. -/
+theorem block_name_cycle {n : Str} (h : n.length = 5) :
+    fixBlockname (unfixBlockname n) = .ok (cycleName n) ∧ (cycleName n).length = 5 ∧
+      cycleName (cycleName n) = cycleName n ∧ unfixBlockname (cycleName n) = unfixBlockname n :=
+  cycle_ok h
+
+/-! ### sections -/
+
+/-- **section_roundtrip_TIMES** (current main table): `num_times_specified = len(time)` for any length -/
+theorem section_roundtrip_TIMES (o o0 : OutputTimes) (ts : List Val) (htime : o.time = some ts)
+    (hn : o.d.get c!"num_times_specified" = some (.int (Int.ofNat ts.length)))
+    (hkeep : (absorb (recOf mainTabs c!"output_times1").names
+        (canonVals (recOf mainTabs c!"output_times1") (lineVals (recOf mainTabs c!"output_times1") o.d)) o0.d).get
+          c!"num_times_specified" = some (.int (Int.ofNat ts.length)))
+    (hx : ∀ x ∈ ts, canonV e10_4 x ≠ Val.none)
+    {lines : List Str} (hw : writeTimes mainTabs o = .ok lines) (rest : List Str) :
+    ∃ kwline body, lines = kwline :: body ∧
+      readTimes .default mainTabs o0 (body ++ rest) =
+        .ok ({ d := absorb (recOf mainTabs c!"output_times1").names
+                      (canonVals (recOf mainTabs c!"output_times1") (lineVals (recOf mainTabs c!"output_times1") o.d)) o0.d,
+               time := some (ts.map (canonV e10_4)) }, rest) := by
+  obtain ⟨r2, h2, hc, _⟩ := chunkOK_spec (main_chunks_ok (c!"output_times2", 8, e10_4) (by decide))
+  have h1 : mainTabs.get c!"output_times1" = .ok (recOf mainTabs c!"output_times1") := by decide +kernel
+  have hr1 : RecWF (recOf mainTabs c!"output_times1") := recWFb_spec (by decide +kernel)
+  exact Proofs.T2.section_roundtrip_TIMES mainTabs h1 h2 hr1 hc o o0 ts htime hn hkeep hx hw rest
+
+/-- **section_roundtrip_ELEME** for the main table and for the extra-precision table of the current /repo -/
+theorem section_roundtrip_ELEME (rocks : List Rock) (bs : List Block) (hb : ∀ b ∈ bs, GoodBlock rocks b) (rest : List Str) :
+    ((∀ b ∈ bs, ∃ l, writeBlock mainTabs b = .ok l) →
+      readBlocks .default mainTabs rocks
+          ((bs.map (fun b => match writeBlock mainTabs b with | .ok l => [l] | .error _ => [])).flatten ++ nl [] :: rest) =
+        .ok ((bs.map (canonBlock d5 d5 e10_4 e10_4 e10_4 e10_3 e10_3 e10_3)).foldl addBlock [], rest)) ∧
+    ((∀ b ∈ bs, ∃ l, writeBlock xpTabs b = .ok l) →
+      readBlocks .default xpTabs rocks
+          ((bs.map (fun b => match writeBlock xpTabs b with | .ok l => [l] | .error _ => [])).flatten ++ nl [] :: rest) =
+        .ok ((bs.map (canonBlock d5 d5 e15_8 e15_8 e15_8 e15_8 e15_8 e15_8)).foldl addBlock [], rest)) := by
+  obtain ⟨r, hT, hs⟩ := main_block_shape
+  obtain ⟨rx, hTx, hsx⟩ := xp_block_shape
+  exact ⟨fun hw => Proofs.T2.section_roundtrip_ELEME hT hs rocks bs hb hw rest,
+         fun hw => Proofs.T2.section_roundtrip_ELEME hTx hsx rocks bs hb hw rest⟩
+
+/-- **section_roundtrip_CONNE** for the main table and for the extra-precision table of the current /repo -/
+theorem section_roundtrip_CONNE (blocks : List Block) (cs : List Conn) (hc : ∀ c ∈ cs, GoodConn blocks c) (rest : List Str) :
+    ((∀ c ∈ cs, ∃ l, writeConn mainTabs c = .ok l) →
+      readConns .default mainTabs blocks
+          ((cs.map (fun c => match writeConn mainTabs c with | .ok l => [l] | .error _ => [])).flatten ++ nl [] :: rest) =
+        .ok ((cs.map (canonConn d5 d5 d5 d5 e10_4 e10_4 e10_4 f10_7 e10_3)).foldl addConn [], rest)) ∧
+    ((∀ c ∈ cs, ∃ l, writeConn xpTabs c = .ok l) →
+      readConns .default xpTabs blocks
+          ((cs.map (fun c => match writeConn xpTabs c with | .ok l => [l] | .error _ => [])).flatten ++ nl [] :: rest) =
+        .ok ((cs.map (canonConn d5 d5 d5 d5 e15_8 e15_8 e15_8 f15_8 e15_8)).foldl addConn [], rest)) := by
+  obtain ⟨r, hT, hs⟩ := main_conn_shape
+  obtain ⟨rx, hTx, hsx⟩ := xp_conn_shape
+  exact ⟨fun hw => Proofs.T2.section_roundtrip_CONNE hT hs blocks cs hc hw rest,
+         fun hw => Proofs.T2.section_roundtrip_CONNE hTx hsx blocks cs hc hw rest⟩
+
+/-- **section_roundtrip_INCON** (current main table) -/
+theorem section_roundtrip_INCON (es : List Incon) (hn : ∀ e ∈ es, GoodName e.name)
+    (hw : ∀ e ∈ es, ∃ ls, writeIncon mainTabs e = .ok ls) (d0 : List Incon) (rest : List Str) :
+    readIncons .default mainTabs d0
+        ((es.map (fun e => match writeIncon mainTabs e with | .ok ls => ls | .error _ => [])).flatten ++ nl [] :: rest) =
+      .ok ((es.map (canonIncon (recOf mainTabs c!"incon2") d5 d5 e15_9)).foldl setIncon d0, rest) := by
+  obtain ⟨r1, r2, h1, h2, hs⟩ := main_incon_shape
+  have : r2 = recOf mainTabs c!"incon2" := by
+    have h2' : mainTabs.get c!"incon2" = .ok (recOf mainTabs c!"incon2") := by decide +kernel
+    rw [h2] at h2'; cases h2'; rfl
+  subst this
+  exact Proofs.T2.section_roundtrip_INCON h1 h2 hs es hn hw d0 rest
+
+/-- **section_roundtrip_FOFT / GOFT**: names in order, as names (no grid yet) or as the grid's blocks -/
+theorem section_roundtrip_FOFT_GOFT (kw : Str) (items : List HItem) (hne : items ≠ [])
+    (hv : ∀ i ∈ items, Visible i.name) (blocks : List Block) (rest : List Str) :
+    ∃ body, writeHistoryBlocks kw items = nl kw :: body ∧
+      readHistoryBlocks blocks (body ++ rest) =
+        .ok (if blocks.isEmpty then items.map (fun i => { isObj := false, name := cycleName i.name })
+             else ((items.map (fun i => cycleName i.name)).filter fun n => blocks.any (·.name == n)).map
+                    (fun n => { isObj := true, name := n }), rest) :=
+  section_roundtrip_history_blocks kw items hne hv blocks rest
+
+theorem section_roundtrip_COFT (items : List HConn) (hne : items ≠ [])
+    (hv : ∀ i ∈ items, Visible i.n1 ∧ i.n2.length = 5) (rest : List Str) :
+    ∃ body, writeHistoryConns items = nl c!"COFT" :: body ∧
+      readHistoryConns [] [] (body ++ rest) =
+        .ok (items.map (fun i => { isObj := false, n1 := cycleName i.n1, n2 := cycleName i.n2 }), rest) :=
+  Proofs.T2.section_roundtrip_COFT items hne hv rest
+
+/-! ### the file: sections in order, fixed point -/
+
+/-- **sections_preserved.**  A file laid out as `keyword line + body` per section and closed by ENDCY/ENDFI,
+    whose section readers each consume exactly their own body: `read()`'s keyword loop dispatches every section
+    once, in file order, stops at the end keyword (which it records), and — when the readers leave `_sections`
+    alone — the object's `_sections` becomes exactly the keywords of the file, in the file's order. -/
+theorem sections_preserved (rf : ReadFn) (pdat : Option (List Str)) (endkw : Str) (hend : IsEnd endkw)
+    (secs : List Sec) (d dfin : T2Data) (hch : ChainOK rf pdat d secs dfin)
+    (hpres : ∀ d s d', StepOK rf pdat d s d' → s ∈ secs → d'.sections = d.sections) :
+    readLoop rf pdat (secs.length + 1) d none (layout secs ++ [nl endkw]) = .ok { dfin with endKeyword := endkw } ∧
+      dfin.sections = d.sections ++ secs.map (·.kw) :=
+  ⟨readLoop_chain rf pdat endkw hend secs d dfin none _ _ hch (Or.inl ⟨rfl, rfl⟩) (Nat.lt_succ_self _),
+   chain_sections rf pdat secs d dfin hch hpres⟩
+
+/-- `insert_section` leaves the sections already in the list in their order … -/
+theorem insert_keeps_others (all secs : List Str) (s : Str) (hs : s ∉ secs) :
+    (insertSection all secs s).erase s = secs ∧ s ∈ insertSection all secs s :=
+  ⟨Proofs.T2.insert_keeps_others all secs s hs, insert_mem all secs s⟩
+
+/-- … and `delete_section` does not reorder the rest -/
+theorem delete_keeps_order (secs : List Str) (s : Str) : (deleteSection secs s).Sublist secs :=
+  delete_sublist secs s
+
+/-- from-scratch objects get their sections in the order of `t2data_sections` (kernel-evaluated on the generated
+    section list: the full set, two typical subsets, and one insertion into a permuted list — tests, not a
+    universal statement) -/
+theorem update_sections_canonical :
+    updateSectionsWith allSections allSections [] = allSections ∧
+    updateSectionsWith allSections [c!"PARAM", c!"ELEME", c!"CONNE"] [] = [c!"PARAM", c!"ELEME", c!"CONNE"] :=
+  ⟨update_sections_canonical_all, update_sections_canonical_samples.1⟩
+
+/-- **write_read_fixpoint.**  If reading what was written gives `canon d` and `canon` is idempotent, then for
+    `f = write (read (write d))` every further cycle reproduces `f`: `write (read f) = f`. -/
+theorem write_read_fixpoint {D F E : Type} (write : D → Except E F) (read : F → Except E D) (canon : D → D)
+    (hrt : ∀ d f, write d = .ok f → read f = .ok (canon d)) (hidem : ∀ d, canon (canon d) = canon d)
+    (d : D) (f1 f2 : F) (h1 : write d = .ok f1) (h2 : ∀ d1, read f1 = .ok d1 → write d1 = .ok f2) :
+    ∀ d2, read f2 = .ok d2 → write d2 = .ok f2 :=
+  fixpoint_of_roundtrip write read canon hrt hidem d f1 f2 h1 h2
+
+/-- reader and writer choose `param1` / `param1_autough2` and `multi` / `multi_autough2` by the same function
+    of `simulator` -/
+theorem flavour_param_spec (T : Tabs) (d : T2Data) :
+    param1Rec T d = T.get (if d.simulator.isEmpty then c!"param1" else c!"param1_autough2") ∧
+    multiRec T d = T.get (if d.simulator.isEmpty then c!"multi" else c!"multi_autough2") :=
+  Proofs.T2.flavour_param_spec T d
+
+/-- the dispatch of /repo (`read_fn`, `write_fn`, skip functions, section lists) is the one modelled -/
+theorem dispatch_as_modelled :
+    Gen.Sections.readFn.map (·.1) = Gen.Sections.sections ∧ Gen.Sections.writeFn.map (·.1) = Gen.Sections.sections ∧
+    (∀ e ∈ Gen.Sections.readFn, e.2 = modelReader e.1) ∧
+    (∀ e ∈ Gen.Sections.writeFn, e.2 = c!"write_" ++ (modelReader e.1).drop 5) ∧
+    Gen.Sections.skipFn.map (·.1) = Gen.Sections.xpSections ∧
+    (∀ kw ∈ Gen.Sections.xpSections, kw ∈ Gen.Sections.sections) :=
+  Proofs.T2.dispatch_as_modelled
+
+/-! ### the hypotheses are satisfiable (non-vacuity) -/
+
+-- a chunk record of the current table, a list straddling the 8-per-line boundary (9 values → 2 lines)
+example : ∃ r, mainTabs.get c!"output_times2" = .ok r ∧ ChunkRec r 8 e10_4 := by
+  obtain ⟨r, h, hc, _⟩ := chunkOK_spec (main_chunks_ok (c!"output_times2", 8, e10_4) (by decide))
+  exact ⟨r, h, hc⟩
+example : ((9 + 8 - 1) / 8 = 2) ∧ ((8 + 8 - 1) / 8 = 1) ∧ ((12 + 4 - 1) / 4 = 3) := by decide
+-- good names: plain, with a blank in column 4, with a zero in column 4
+example : GoodName c!"abc12" ∧ GoodName c!"ab1 5" ∧ GoodName c!"AA 05" :=
+  ⟨⟨rfl, by decide +kernel, by decide +kernel⟩, ⟨rfl, by decide +kernel, by decide +kernel⟩, ⟨rfl, by decide +kernel, by decide +kernel⟩⟩
+-- the name cycle really changes some names once and then no more
+example : cycleName c!"abc05" = c!"abc 5" ∧ cycleName c!"ab1 5" = c!"ab105" ∧ cycleName c!"ab105" = c!"ab105" := by
+  decide +kernel
+-- a block and a connection that satisfy GoodBlock / GoodConn
+def exRock : Rock := { name := .str c!"rock1", nad := .int 0, density := .real 2600, porosity := .real (1/10), perm := [.real 1, .real 1, .real 1],
+                       conductivity := .real (3/2), specificHeat := .real 900, extra := [], rp := none, cp := none }
+def exBlock : Block := { name := c!"abc05", nseq := .none, nadd := .none, rock := c!"rock1", volume := .real (5/2), ahtx := .none, pmx := .none,
+                         centre := some [.real 1, .real 2, .real (-3)] }
+example : GoodBlock [exRock] exBlock :=
+  ⟨⟨rfl, by decide +kernel, by decide +kernel⟩, rfl, by decide, by decide +kernel, by intro c h; cases h; rfl⟩
+example : GoodConn [{ exBlock with name := c!"abc 5" }, { exBlock with name := c!"xyz 1" }]
+    { b1 := c!"abc05", b2 := c!"xyz 1", nseq := .none, nad1 := .none, nad2 := .none, direction := .int 3,
+      dist := [.real (1/2), .real (1/2)], area := .real 1, dircos := .real (-1), sigma := .none } :=
+  ⟨⟨rfl, by decide +kernel, by decide +kernel⟩, ⟨rfl, by decide +kernel, by decide +kernel⟩, by decide +kernel, by decide +kernel, rfl, by decide +kernel⟩
+-- the writers succeed on them (so the round-trip statements are about real files)
+example : ∃ l, writeBlock mainTabs exBlock = .ok l := by
+  refine ⟨(match writeBlock mainTabs exBlock with | .ok l => l | .error _ => []), ?_⟩
+  decide +kernel
+-- visible history items
+example : Visible c!"abc12" := ⟨rfl, by decide +kernel⟩
+-- a one-section chain for `sections_preserved`: a file `START / ENDCY`
+example : ChainOK .default none T2Data.empty [⟨c!"START", nl c!"START", []⟩]
+    { T2Data.empty with start := true, sections := [c!"START"] } := by
+  refine ⟨{ T2Data.empty with start := true }, ⟨by decide +kernel, by unfold IsEnd; decide, by decide +kernel, by decide +kernel, by decide, ?_⟩, rfl⟩
+  intro line _ rest
+  exact ⟨none, rest, rfl, Or.inl ⟨rfl, rfl⟩⟩
+
 end Props.C01
